@@ -203,8 +203,9 @@ def RunSt.run (st : RunSt) (sched : List RunEv) : RunSt := sched.foldl RunSt.ste
 /-- RunOnRange has returned: channel closed, every worker gone -/
 def RunSt.done (st : RunSt) : Bool := st.closed && st.idle == 0 && st.busy == 0
 
-/-- `true` = RunOnRange returns nil -/
-def RunSt.resultNil (st : RunSt) : Bool := st.errExit == 0
+/-- `true` = RunOnRange returns nil: no worker kept an error and the producer did not leave its loop through
+    `ctx.Done()` (since the repair in client-go: it then returns the context's error) -/
+def RunSt.resultNil (st : RunSt) : Bool := st.errExit == 0 && !st.abandoned
 
 /-- every sub-range was handed to the handler -/
 def RunSt.complete (tasks : List Task) (st : RunSt) : Bool := tasks.all fun t => st.handled.contains t
